@@ -16,7 +16,8 @@
 -/
 import Grip.Model.C03
 import Grip.Spec.C03
-import GripProofs.Lemmas.C03Del
+import GripProofs.Lemmas.C03Lbl
+import GripProofs.Lemmas.C03Names
 
 namespace Grip.Props.C03
 open Grip Grip.C03 Grip.C03.Spec
@@ -37,7 +38,7 @@ theorem refines_init : Refines {} {} := by
 theorem step_refines_partial {s : KState} {a : AG} (h : Refines s a) (op : Op) (hop : NoReadd a op) :
     Refines (step s op).1 (specStep a op).1 ∧ (step s op).2 = (specStep a op).2 := by
   cases op with
-  | addGraph g => exact Lemmas.addGraph_refines h g hop
+  | addGraph g => exact Lemmas.addGraph_refines h g (noReadd_addGraph hop)
   | delGraph g => exact Lemmas.delGraph_refines h g
   | addV g vs =>
     have key : ∀ (vs : List VertexIn) (a0 : AG), noReaddAll g a0 (vs.map .v) = true := by
@@ -46,8 +47,8 @@ theorem step_refines_partial {s : KState} {a : AG} (h : Refines s a) (op : Op) (
       | nil => intro _; rfl
       | cons v vs ih => intro a0; simp only [List.map_cons, noReaddAll, okElem, Bool.true_and]; exact ih _
     exact Lemmas.addElems_refines h g (vs.map .v) (fun _ => key vs a)
-  | addE g es => exact Lemmas.addElems_refines h g (es.map .e) hop
-  | bulk g xs => exact Lemmas.addElems_refines h g xs hop
+  | addE g es => exact Lemmas.addElems_refines h g (es.map .e) (noReadd_addE hop)
+  | bulk g xs => exact Lemmas.addElems_refines h g xs (noReadd_bulk hop)
   | delV g id => exact Lemmas.delV_refines h g id
   | delE g eid => exact Lemmas.delE_refines h g eid
 
@@ -59,6 +60,7 @@ theorem history_refines_partial (ops : List Op) :
   | nil => intro s a h _; exact h
   | cons o os ih =>
     intro s a h hh
+    rw [noReaddHist_cons] at hh
     simp only [run, specRun, List.foldl_cons]
     exact ih (step_refines_partial h o hh.1).1 hh.2
 
@@ -66,5 +68,93 @@ theorem history_refines_partial (ops : List Op) :
 theorem history_refines_init_partial (ops : List Op) (hh : NoReaddHist {} ops) :
     Refines (run {} ops) (specRun {} ops) :=
   history_refines_partial ops refines_init hh
+
+/-! ### everything observable equals the abstract graph -/
+
+/-- Under the refinement relation every read of graph `g` the property calls observable —
+    lookup by id, full listings, neighbours and incident edges in both directions with any label
+    filter, the label-index scan, the label listings, graph existence and the timestamp — equals
+    the read of the abstract graph (listings as multisets: `List.Perm`; label listings as sets). -/
+theorem observe_eq {s : KState} {a : AG} (h : Refines s a) (g : String) :
+    (∀ id, getVertex s.kv g id = Spec.getVertex a g id) ∧
+    (∀ eid, getEdge s.kv g eid = Spec.getEdge a g eid) ∧
+    (vertexList s.kv g).Perm (Spec.vertexList a g) ∧
+    (edgeList s.kv g).Perm (Spec.edgeList a g) ∧
+    (∀ id labels, (outV s.kv g id labels).Perm (Spec.outV a g id labels)) ∧
+    (∀ id labels, (inV s.kv g id labels).Perm (Spec.inV a g id labels)) ∧
+    (∀ id labels, (outE s.kv g id labels).Perm (Spec.outE a g id labels)) ∧
+    (∀ id labels, (inE s.kv g id labels).Perm (Spec.inE a g id labels)) ∧
+    (∀ label, (verticesWithLabel s.kv g label).Perm (Spec.verticesWithLabel a g label)) ∧
+    (∀ l, l ∈ listVertexLabels s.kv g ↔ l ∈ Spec.listVertexLabels a g) ∧
+    (∀ l, l ∈ listEdgeLabels s.kv g ↔ l ∈ Spec.listEdgeLabels a g) ∧
+    hasGraph s g = a.graphs.contains g ∧
+    s.stamp g = a.stamp g :=
+  ⟨Lemmas.getVertex_eq h.inv g, Lemmas.getEdge_eq h.inv g, Lemmas.vertexList_perm h.inv g,
+   Lemmas.edgeList_perm h.inv g, Lemmas.outV_perm h.inv g, Lemmas.inV_perm h.inv g,
+   Lemmas.outE_perm h.inv g, Lemmas.inE_perm h.inv g, Lemmas.verticesWithLabel_perm h.inv g,
+   Lemmas.listVertexLabels_mem h.inv g, Lemmas.listEdgeLabels_mem h.inv g,
+   Lemmas.hasGraph_iff h g, by simp [KState.stamp, AG.stamp, h.stamps]⟩
+
+/-! ### the open finding: the full-strength statement is false -/
+
+/-- corpus/C03/kf-edge-readd.ops -/
+def witnessOps : List Op :=
+  [ .addGraph "g1",
+    .addV "g1" [⟨"a", "L", .obj []⟩, ⟨"b", "L", .obj []⟩],
+    .addE "g1" [⟨"e1", "L", "a", "b", .obj []⟩],
+    .addE "g1" [⟨"e1", "L", "b", "a", .obj []⟩] ]
+
+/-- Negation of the full-strength statement on the witness history of C03-edge-readd: after
+    re-adding edge `e1` with swapped endpoints the MODEL (= kvgraph) lists two records for `e1`,
+    the abstract graph one; so the edge listings are not permutations of one another and
+    `Refines` fails after this history (by `observe_eq`). -/
+theorem edge_readd_witness :
+    ((edgeList (run {} witnessOps).kv "g1").filter (·.gid = "e1")).length = 2 ∧
+    ((Spec.edgeList (specRun {} witnessOps) "g1").filter (·.gid = "e1")).length = 1 ∧
+    ¬ (edgeList (run {} witnessOps).kv "g1").Perm (Spec.edgeList (specRun {} witnessOps) "g1") ∧
+    ¬ NoReaddHist {} witnessOps := by
+  have h1 : ((edgeList (run {} witnessOps).kv "g1").filter (·.gid = "e1")).length = 2 := by
+    with_unfolding_all decide
+  have h2 : ((Spec.edgeList (specRun {} witnessOps) "g1").filter (·.gid = "e1")).length = 1 := by
+    with_unfolding_all decide
+  refine ⟨h1, h2, ?_, ?_⟩
+  · intro hp
+    have := (hp.filter (·.gid = "e1")).length_eq
+    rw [h1, h2] at this
+    exact absurd this (by decide)
+  · intro hh
+    have := (observe_eq (history_refines_init_partial witnessOps hh) "g1").2.2.2.1
+    have := (this.filter (·.gid = "e1")).length_eq
+    rw [h1, h2] at this
+    exact absurd this (by decide)
+
+/-! ### non-vacuity -/
+
+/-- a history that satisfies the side conditions (it re-adds `e1` with the same endpoints and new
+    data, re-adds vertex `a` with another label, deletes and re-creates) -/
+def goodOps : List Op :=
+  [ .addGraph "g1", .addGraph "g2",
+    .addV "g1" [⟨"a", "L", .obj []⟩, ⟨"b", "L", .obj []⟩, ⟨"", "L", .obj []⟩],
+    .addE "g1" [⟨"e1", "L", "a", "b", .obj []⟩],
+    .bulk "g1" [.e ⟨"e1", "L", "a", "b", .obj [("k", .num 1)]⟩, .v ⟨"a", "M", .obj []⟩],
+    .addE "g2" [⟨"e1", "L", "b", "a", .obj []⟩],
+    .delV "g1" "b", .delE "g2" "e1", .delGraph "g2" ]
+
+theorem goodOps_ok : NoReaddHist {} goodOps := by
+  unfold goodOps
+  rw [Lemmas.noReaddHist_addGraph Lemmas.goodName_g1, Lemmas.noReaddHist_addGraph Lemmas.goodName_g2]
+  with_unfolding_all decide
+
+/-- non-vacuity of `history_refines_partial`: the side conditions hold on `goodOps`, hence the
+    refinement relation holds after it -/
+example : Refines (run {} goodOps) (specRun {} goodOps) :=
+  history_refines_init_partial goodOps goodOps_ok
+
+/-- the side condition holds on the witness history up to the offending operation, and fails
+    with it (`edge_readd_witness`) -/
+example : NoReaddHist {} (witnessOps.take 3) := by
+  show NoReaddHist {} [.addGraph "g1", _, _]
+  rw [Lemmas.noReaddHist_addGraph Lemmas.goodName_g1]
+  with_unfolding_all decide
 
 end Grip.Props.C03
